@@ -99,9 +99,9 @@ def _labels_f(case):
 
 # ------------------------------------------------------------------------------------------ diagonal measures / densities
 def _pool_d(tier):
-    base = [(1, 1), (2, 2), (3, 3), (4, 2), (2, 4), (3, 1)]
+    base = [(1, 1), (2, 2), (3, 3), (4, 2), (2, 4), (3, 1), (24, 2), (48, 1)]
     if tier == "thorough":
-        base += [(4, 4), (1, 3), (4, 1), (2, 3)]
+        base += [(4, 4), (1, 3), (4, 1), (2, 3), (32, 1), (64, 2)]
     return base
 
 
@@ -118,7 +118,9 @@ def _strategy_d(shapes):
         kappa = draw(st.sampled_from([10.0, 100.0]))
         kind = "diag_pdf" if is_pdf else "diag_measure"
         case = {"D": D, "R": R, "kind": kind, "op": op, "cache": draw(st.sampled_from(gen.CACHES)),
-                "m": draw(gen.measure_params(kind, R, D, kappa)), "x": draw(gen.arr((2, D), -2, 2)),
+                # high-dimensional cases: overall scales down to standard deviations of 1e+-8 (determinants leave the float64
+                # range, their logarithms do not)
+                "m": draw(gen.measure_params(kind, R, D, kappa, extreme="wide" if D >= 17 else False)), "x": draw(gen.arr((2, D), -2, 2)),
                 "A": draw(gen.arr((R, 2, D))), "a": draw(gen.arr((R, 2))), "B": draw(gen.arr((2, D))),
                 "idx": draw(gen.index_array(R, 1, 3)), "key": draw(st.integers(0, 2**31 - 1))}
         if op in ("multiply", "hadamard"):
@@ -219,7 +221,7 @@ def _run_d(case):
 
 
 def _labels_d(case):
-    return [f"kind={case['kind']}", f"op={case['op']}", f"cache={case['cache']}"]
+    return [f"kind={case['kind']}", f"op={case['op']}", f"cache={case['cache']}", "D>=17" if case["D"] >= 17 else "D<=4"]
 
 
 # ------------------------------------------------------------------------------------------ conditionals
